@@ -466,13 +466,51 @@ func (vc *FuncVC) hoBoltView(st *State, fn *ssa.Function, c *ssa.CallCommon, arg
 	for _, c := range sp.Unfolds {
 		st.assume(env2.asBool(env2.tr(c.E)))
 	}
-	vc.callFunction(st, cl.Fn, cl.Bind, []Value{tx}, pos, func(st *State, res Value) {
+	finish := func(st *State, res Value) {
 		env3 := vc.bindCallee(st, old, sp, fn, fn.Signature, args, ptypes, []Value{res})
 		env3.vars["tx"] = TV{T: tx, Go: txT}
 		for _, c := range sp.Ensures {
 			st.assume(env3.asBool(env3.tr(c.E)))
 		}
 		k(st, res)
+	}
+	if !strings.HasSuffix(fn.String(), ".Update") {
+		vc.callFunction(st, cl.Fn, cl.Bind, []Value{tx}, pos, finish)
+		return
+	}
+	// Update: the callback's result decides between Commit (whose error becomes the result) and Rollback; both are
+	// the contract calls of bbolt.spec, applied to the transaction the callback worked on
+	method := func(name string) (*ssa.Function, *FuncSpec) {
+		m := vc.w.prog.LookupMethod(txT, nil, name)
+		if m == nil {
+			return nil, nil
+		}
+		return m, vc.w.specFor(m)
+	}
+	commitFn, commitSp := method("Commit")
+	rollFn, rollSp := method("Rollback")
+	if commitSp == nil || rollSp == nil {
+		vc.unknownCall(st, shortName(fn.String())+" (no Commit/Rollback contract)", fn.Signature, pos, k)
+		return
+	}
+	vc.callFunction(st, cl.Fn, cl.Bind, []Value{tx}, pos, func(st *State, res Value) {
+		rt, isT := res.(Term)
+		if !isT || rt.Sort != SIface {
+			panic(trError{"Update callback result is not an error value"})
+		}
+		isNil := Eq(ITag(rt), IntLit(0))
+		st2 := st.clone()
+		st.assume(isNil)
+		st2.assume(Not(isNil))
+		st.trace = append(st.trace, fmt.Sprintf("%s: Update callback succeeded: commit", vc.pos(pos)))
+		st2.trace = append(st2.trace, fmt.Sprintf("%s: Update callback failed: rollback", vc.pos(pos)))
+		vc.run(func() {
+			vc.contractCall(st, commitSp, commitFn, commitFn.Signature, []Value{tx}, []types.Type{txT}, pos, finish)
+		})
+		vc.run(func() {
+			vc.contractCall(st2, rollSp, rollFn, rollFn.Signature, []Value{tx}, []types.Type{txT}, pos, func(st *State, _ Value) { finish(st, res) })
+		})
+		panic(pathEnd{})
 	})
 }
 
